@@ -535,6 +535,34 @@ func histString(h []xMsg) string {
 // judgeHistory runs h in lock-step and checks it against the NFA model.
 // promptness is inherent: each message's complete reply must be on the wire
 // when the server blocks for more input.
+// xPrepare fills in what the generators leave open, as a deterministic function of the history: the
+// row limits of Execute messages and, in a quarter of the histories, long names for "a" and "b".
+func xPrepare(c *core.Ctx, h []xMsg) []xMsg {
+	h = append([]xMsg(nil), h...)
+	// row limits of Execute: "no limit" or a limit that the (at most two) rows of a scripted statement
+	// never reach, where "all rows, then CommandComplete" is what every reading of the protocol demands
+	if core.H64("names "+histString(h))%4 == 0 {
+		// names are arbitrary strings: in a quarter of the histories "a" and "b" are two long names that
+		// share their first 63 bytes (PostgreSQL's identifier length) and differ only behind them
+		long := map[string]string{"a": strings.Repeat("n", 63) + "_first", "b": strings.Repeat("n", 63) + "_second_and_longer"}
+		for i := range h {
+			if v, ok := long[h[i].Name]; ok {
+				h[i].Name = v
+			}
+			if v, ok := long[h[i].Portal]; ok {
+				h[i].Portal = v
+			}
+		}
+		c.Count("histories_with_long_names", 1)
+	}
+	for i := range h {
+		if h[i].K == "exec" {
+			h[i].Lim = []int{0, 0, 2, 3, 1000, 1<<31 - 1}[core.H64(fmt.Sprint(i, h[i].Portal, len(h)))%6]
+		}
+	}
+	return h
+}
+
 func judgeHistory(c *core.Ctx, env *hs.Env, h []xMsg, cs any, prop string) (ok bool, run xRun) {
 	return judgeHistoryY(c, env, h, cs, nil)
 }
@@ -554,14 +582,7 @@ func judgeHistoryY(c *core.Ctx, env *hs.Env, h []xMsg, cs any, yield func()) (ok
 		c.Violate("startup", "plain startup failed", err.Error(), cs)
 		return false, run
 	}
-	// row limits of Execute: "no limit" or a limit that the (at most two) rows of a scripted statement
-	// never reach, where "all rows, then CommandComplete" is what every reading of the protocol demands
-	h = append([]xMsg(nil), h...)
-	for i := range h {
-		if h[i].K == "exec" {
-			h[i].Lim = []int{0, 0, 2, 3, 1000, 1<<31 - 1}[core.H64(fmt.Sprint(i, h[i].Portal, len(h)))%6]
-		}
-	}
+	h = xPrepare(c, h)
 	states := []*xState{newXState()}
 	viol := func(i int, rule, sig, detail string) {
 		c.Violate(rule, sig, fmt.Sprintf("history [%s], step %d %s: %s", histString(h), i, h[i].short(), detail), cs)
